@@ -80,7 +80,11 @@ class RecursiveChecker(ConversionsVisitor[Conv, Any], ObjectVisitor[Any]):
 
     def visit(self, tp: AnyType):
         rec_key = (tp, self._conversion)
-        if rec_key in self._cache:
+        # Only non-recursive entries allow to skip the visit: a recursive type may belong
+        # to a cycle going through the types being visited, which would be missed - and
+        # recorded as non-recursive - if the entry had been published in the meantime by
+        # another checker (first use from several threads)
+        if self._cache.get(rec_key) is False:
             pass
         elif rec_key in self._guard_indices:
             recursive = self._guard[self._guard_indices[rec_key] :]
